@@ -240,12 +240,15 @@ pub struct ScriptedIo {
     /// number of scripted (nondeterministic) answers left; afterwards the carrier is ideal:
     /// never Pending, transfers everything that fits
     budget: u64,
+    /// where the written bytes go (None: only counted)
+    sink: Option<*mut Vec<u8>>,
 }
 unsafe impl Send for ScriptedIo {}
 impl VerifIo for ScriptedIo {}
 
 impl ScriptedIo {
-    fn new(nd: &mut Nondet, incoming: Vec<u8>) -> Self { ScriptedIo { nd: nd as *mut Nondet, incoming, pos: 0, written: 0, budget: param("io_budget", 3) } }
+    fn new(nd: &mut Nondet, incoming: Vec<u8>) -> Self { ScriptedIo { nd: nd as *mut Nondet, incoming, pos: 0, written: 0, budget: param("io_budget", 3), sink: None } }
+    fn with_sink(mut self, sink: *mut Vec<u8>) -> Self { self.sink = Some(sink); self }
     fn scripted(&mut self) -> bool { if self.budget > 0 { self.budget -= 1; true } else { false } }
 }
 
@@ -274,6 +277,7 @@ impl AsyncWrite for ScriptedIo {
         if scripted && nd.bool("write_pending") { return Poll::Pending; }
         let n = if !scripted { buf.len() } else { match nd.choose("write_chunk", 3) { 0 => 1, 1 => if buf.len() / 2 > 0 { buf.len() / 2 } else { 1 }, _ => buf.len() } };
         self.written += n;
+        if let Some(sink) = self.sink { unsafe { (*sink).extend_from_slice(&buf[..n]); } }
         Poll::Ready(Ok(n))
     }
     fn poll_flush(mut self: Pin<&mut Self>, _cx: &mut Context<'_>) -> Poll<std::io::Result<()>> {
@@ -324,13 +328,17 @@ pub fn c04_identity_receive(nd: &mut Nondet) {
 /// C04 kernel (sender): when the sink reports the flush complete, every accepted byte is in the carrier.
 pub fn c04_sink_flush(nd: &mut Nondet) {
     let len = 1 + nd.choose("msg_len", 3) as usize;
-    let io = ScriptedIo::new(nd, Vec::new());
+    let mut wire: Vec<u8> = Vec::new();
+    let io = ScriptedIo::new(nd, Vec::new()).with_sink(&mut wire as *mut Vec<u8>);
     let peer = nd.peer_id("peer");
     let mut sub = Substream::new_verif(peer, SubstreamId::from(0usize), Box::new(io), ProtocolCodec::UnsignedVarint(Some(8)));
     let waker = noop_waker();
     let mut cx = Context::from_waker(&waker);
     match Sink::<Bytes>::poll_ready(Pin::new(&mut sub), &mut cx) { Poll::Ready(Ok(())) => {}, _ => { check("c04.ready-on-empty-sink", false); } }
-    let msg = Bytes::from(vec![1u8; len]);
+    let payload: Vec<u8> = (0..len).map(|i| 0x51 + i as u8).collect();
+    let mut expected_wire = vec![len as u8];
+    expected_wire.extend_from_slice(&payload);
+    let msg = Bytes::from(payload);
     check("c04.send-within-max-accepted", Sink::<Bytes>::start_send(Pin::new(&mut sub), msg).is_ok());
     let polls = param("polls", 3);
     let mut i = 0;
@@ -339,12 +347,60 @@ pub fn c04_sink_flush(nd: &mut Nondet) {
             Poll::Ready(Ok(())) => {
                 cover("c04.flush-ready");
                 check("c04.flush-complete-means-nothing-withheld", sub.pending_out_is_empty_verif());
+                check("c04.flushed-bytes-are-the-framed-message", wire == expected_wire);
                 return;
             }
             Poll::Ready(Err(_)) => { check("c04.no-error-from-healthy-carrier", false); }
             Poll::Pending => { cover("c04.flush-pending"); }
         }
+        // whatever has reached the carrier so far is a prefix of the framed message: nothing reordered, repeated or dropped
+        check("c04.carrier-holds-a-prefix-of-the-framed-message", wire.len() <= expected_wire.len() && wire[..] == expected_wire[..wire.len()]);
         i += 1;
+    }
+}
+
+/// C04 (receiver, several frames): every length-prefixed frame in the stream is delivered once, in order and unchanged,
+/// including a frame larger than 64 KiB with further frames already buffered behind it.
+pub fn c04_frame_sequence(nd: &mut Nondet) {
+    let first = match nd.choose("first_frame", 4) { 0 => 1usize, 1 => 300, 2 => 70000, _ => 131073 };
+    let second = match nd.choose("second_frame", 3) { 0 => 0usize, 1 => 2, _ => 66000 };
+    let third = 3usize;
+    let sizes = [first, second, third];
+    let mut incoming: Vec<u8> = Vec::new();
+    let total: usize = first + second + third;
+    let data = nd.pattern(total);
+    let mut at = 0usize;
+    for size in sizes.iter() {
+        let mut buf = unsigned_varint::encode::usize_buffer();
+        incoming.extend_from_slice(unsigned_varint::encode::usize(*size, &mut buf));
+        incoming.extend_from_slice(&data[at..at + *size]);
+        at += *size;
+    }
+    let io = ScriptedIo::new(nd, incoming);
+    let peer = nd.peer_id_fixed(1);
+    let limit = if nd.bool("unlimited") { None } else { Some(200000usize) };
+    let mut sub = Substream::new_verif(peer, SubstreamId::from(0usize), Box::new(io), ProtocolCodec::UnsignedVarint(limit));
+    let waker = noop_waker();
+    let mut cx = Context::from_waker(&waker);
+    let mut delivered = 0usize;
+    let mut offset = 0usize;
+    let mut polls = 0;
+    loop {
+        polls += 1;
+        if polls > 60 { check("c04q.every-frame-is-delivered", false); return; }
+        match Pin::new(&mut sub).poll_next(&mut cx) {
+            Poll::Pending => { cover("c04q.pending"); }
+            Poll::Ready(Some(Ok(frame))) => {
+                check("c04q.no-frame-beyond-the-stream", delivered < 3);
+                check("c04q.frame-has-the-announced-length", frame.len() == sizes[delivered]);
+                check("c04q.frame-carries-the-announced-bytes", frame[..] == data[offset..offset + sizes[delivered]]);
+                offset += sizes[delivered];
+                delivered += 1;
+                cover("c04q.frame");
+            }
+            Poll::Ready(Some(Err(_))) => { check("c04q.wellformed-stream-gives-no-error", false); return; }
+            Poll::Ready(None) => { check("c04q.stream-ends-after-the-last-frame", delivered == 3); cover("c04q.end"); return; }
+        }
     }
 }
 
@@ -2727,7 +2783,15 @@ pub fn c08_service_events(nd: &mut Nondet) {
     let steps = param("steps", 4);
     for _ in 0..steps {
         let p = nd.choose("peer", 2) as usize;
-        match nd.choose("event", 3) {
+        match nd.choose("event", 4) {
+            3 => {
+                // this protocol's keep-alive timer for one of the peer's connections expires: the connection is
+                // downgraded (it stays open as long as anything else keeps it open) - invisible to the protocol
+                if live[p].is_empty() { assume(false); }
+                let k = nd.choose("which", live[p].len() as u64) as usize;
+                ts::keep_alive_expired(&mut service, peers[p], ConnectionId::from(live[p][k]));
+                cover("c08.downgraded");
+            }
             0 => {
                 // the manager announces at most two connections per peer (C06)
                 if live[p].len() >= 2 { assume(false); }
